@@ -46,6 +46,8 @@ struct InnerTxn<'a> {
 
 impl Storage for InMemoryStorage {
     fn txn(&self, client_id: Uuid) -> anyhow::Result<Box<dyn StorageTxn + '_>> {
+        #[cfg(feature = "verif")]
+        crate::verif::before_lock(&self.0);
         Ok(Box::new(InnerTxn {
             client_id,
             guard: self.0.lock().expect("poisoned lock"),
